@@ -5,7 +5,7 @@
 (* abstract transitions occurs ("one implementation test per model transition pair").     *)
 EXTENDS Naturals, Sequences, FiniteSets, TLC, Json
 
-CONSTANTS NF, MaxLen, Kinds, MaxHunks, MaxBody, Preamble, Buf, Fixes
+CONSTANTS NF, MaxLen, Kinds, MaxHunks, MaxBody, Preamble, MaxConf, Buf, Fixes
 
 VARIABLES hist, gs, s
 
@@ -16,7 +16,8 @@ vars == <<hist, gs, s>>
 
 Abs(x) == [st |-> x.st, mf |-> x.mf, pf |-> x.pf, mev |-> x.mev, pev |-> x.pev, dlf |-> x.dlf, mode |-> x.mode,
            cur |-> x.cur, handled |-> x.handled, mb |-> Len(x.mb), pb |-> Len(x.pb),
-           ob |-> [i \in DOMAIN x.ob |-> x.ob[i].t], hh |-> x.hh # 0, bin |-> x.bin]
+           ob |-> [i \in DOMAIN x.ob |-> x.ob[i].t], hh |-> x.hh # 0, bin |-> x.bin,
+           comb |-> x.comb, mcp |-> x.mcp, mo |-> Len(x.mo), ma |-> Len(x.ma), mt |-> Len(x.mt)]
 View == <<gs, Abs(s)>>
 
 Init == hist = <<>> /\ gs = E!GInit /\ s = I!InitS
